@@ -205,6 +205,7 @@ def generator_clauses():
     """generator(1) = 0 and the generator is finite and non-negative on (0, 1] (the second coordinate of a box is a dummy)."""
     pts = [(x, ONE) for x in INNER + [NEAR1]]
     return [Clause('generator(1)=0', 'generator(1) = 0', [(ONE, ONE)], lambda u, v: (0.0, 0.0)),
+            Clause('generator(0)=inf', 'generator(0) = +inf (the generator is strict)', [(ZERO, ONE)], lambda u, v: (float('inf'), float('inf'))),
             Clause('generator>=0', 'generator(t) >= 0 and never NaN for t in [1e-4, 1]', pts, lambda u, v: (0.0, float('inf')))]
 
 
